@@ -63,6 +63,10 @@ pub fn rules() -> Vec<Value> {
         json!({"var": 0}), json!({"var": [7, "none"]}), json!({"var": -1}), json!({"var": "a.1"}), json!({"var": ["a.9", {"var": "a.0"}]}),
         json!({"missing": [9, 0, "a.2", "a.-9"]}), json!({"all": [{"var": "a"}, {"!==": [{"var": ""}, "x"]}]}), json!({"substr": [{"var": "a"}, -2]}),
         json!({"cat": [{"var": "a.0"}, {"var": "a.-1"}, {"var": 1}]}), json!({"in": [{"var": "a.1"}, {"var": "a"}]}),
+        // keys that share a long prefix and a length (prefix twins), and sibling lookups of both
+        json!({"var": "order.shipping.address.line1"}), json!({"var": "order.shipping.address.line2"}), json!({"var": "measurement_day_a"}), json!({"var": "measurement_day_b"}),
+        json!({"missing": ["order.shipping.address.line1", "order.shipping.address.line3", "measurement_day_c"]}),
+        json!({"cat": [{"var": "order.shipping.address.line2"}, "|", {"var": "order.shipping.address.line1"}, "|", {"var": "measurement_day_b"}]}),
         // error and early-return paths of every family (a residue left behind on the way out)
         json!({"substr": [{"var": "xs"}, 1]}), json!({"in": [{"var": "n"}, {"var": "a"}]}), json!({"map": [{"var": "a"}, {"var": ""}]}),
         json!({"filter": [{"var": "xs"}, {"+": [{"var": ""}, "x"]}]}), json!({"reduce": [{"var": "xs"}, {"/": [{"var": "accumulator"}, 0]}, 1]}),
@@ -77,7 +81,8 @@ pub fn datas() -> Vec<Value> {
         json!({"a": "xyz", "b": {"c": "deep"}, "xs": [1, 2, 3], "n": 2}),
         json!({"a": "7", "b": null, "xs": [3, 0], "n": 7.0}),
         json!({"a": "", "xs": [], "n": "1"}),
-        json!({"a": "déjà", "b": {"c": "ñu"}, "xs": ["ü", "é"], "n": -0.5}),
+        json!({"a": "déjà", "b": {"c": "ñu"}, "xs": ["ü", "é"], "n": -0.5,
+               "order": {"shipping": {"address": {"line1": "1 Main St", "line2": "Flat 2"}}}, "measurement_day_a": "mon", "measurement_day_b": "tue"}),
         json!("añb"),
         // beyond any small-size fast path: 70 elements, 70 characters
         json!({"a": "0123456789abcdefghijklmnopqrstuvwxyzABCDEFGHIJKLMNOPQRSTUVWXYZ-é水😀+*/=", "b": {"c": "x"}, "n": 70,
